@@ -55,20 +55,34 @@ def r2(ctx):
     ctx.check(ok, fi, "size(n(n+1)/2) == n for every n (8f+1 = (2n+1)^2; exact square root of a perfect square < 2^53)",
               role="inverse", expected="n", found=f"{rt}  at f=n(n+1)/2 -> {sub}")
     solver = ana.func("admm.solver.run_admm_optimization")
-    bs = ana.builder(solver, no_inline=lambda f: True)
+    bs = ana.builder(solver, no_inline=ana.known)
     cfg = ana.cfg(solver)
+    rd = ana.rd(solver)
     args = Sym(solver.params[0])
     NW = tm.mul(Attr(args, "window_size"), Attr(args, "num_data_series"))
     want = tm.to_int(tm.div(tm.mul(NW, tm.add(NW, 1)), 2))
-    allocs = []
-    for x in cfg.nodes:
-        if x.kind == "stmt" and isinstance(x.ast, ast.Assign) and len(x.ast.targets) == 1 and isinstance(x.ast.targets[0], ast.Name):
-            t = bs.term(x.ast.value, x)
-            if isinstance(t, App) and t.fn == "numpy.zeros" and not cfg.enclosing_loops(x):
-                allocs.append((x.ast.targets[0].id, t))
-    ok = len(allocs) >= 3 and all(t.args and t.args[0] == want for _n, t in allocs)
+    from .common import alloc_dims
+    # the state vectors are whatever reaches the first X update as (u, z) and the returned x: their definitions before the loop
+    ux = calls_to(ana, solver, ana.func("admm.solver.admm_update_x").qualname)
+    if not ux:
+        raise AnalysisError("run_admm_optimization does not call admm_update_x")
+    node = cfg.node_of(ux[0].node)
+    loops = cfg.enclosing_loops(node)
+    if not loops:
+        raise AnalysisError("the X update is not inside the iteration loop")
+    init = cfg.for_init[id(loops[0])]
+    names = sorted({a.id for a in ux[0].node.args if isinstance(a, ast.Name)} | ({node.ast.targets[0].id} if isinstance(node.ast, ast.Assign) and isinstance(node.ast.targets[0], ast.Name) else set()))
+    state = []
+    for nm in names:
+        for d in rd.reaching(init, nm):
+            if d.kind == "entry":
+                continue
+            t = bs._def_term(nm, d)
+            if isinstance(t, App) and t.fn == "numpy.zeros":
+                state.append((nm, t))
+    ok = len(state) >= 3 and all(alloc_dims(t) == [want] for _n, t in state)
     ctx.check(ok, solver, "the ADMM state vectors have NW(NW+1)/2 entries", role="state-size", expected=f"numpy.zeros({want})",
-              found="; ".join(f"{nm}={t}" for nm, t in allocs)[:200])
+              found="; ".join(f"{nm}={t}" for nm, t in state)[:200])
 
 
 @rule("C11", "R3", "AGREE", "compress and reinflate use one triangle-index table for the same size", floor=3)
